@@ -312,23 +312,6 @@ fn run_ops<R: ModeTag, const B: Word>(c: &FCase, ctx: &Ctx) -> Out {
                         } else {
                             out.fail(detail());
                         }
-                    } else {
-                        // only a correct value is asked for its precision
-                        let gp = g.precision();
-                        let gd = digits(Sci::from_repr(g.repr()).unwrap().n.magnitude(), base);
-                        if gp != 0 && gd > gp as u64 {
-                            out.fail(format!("FBig::{name} (base {base}, p={p}) of {}: result has {gd} digits but carries precision {gp}", c.x.sci(base).show()));
-                        }
-                        if gp != want_prec {
-                            let detail = || format!("FBig::{name} (base {base}, p={p}) of {}: result carries precision {gp}, the rustdoc of FBig::round promises {want_prec} (p minus the fractional digits; unchanged for integers)", c.x.sci(base).show());
-                            // the |x| < 1 shortcuts return the constants ZERO / ONE / NEG_ONE, whose precision is 0
-                            let shortcut = s.ne < 0 && s.ne + s.d as i64 <= -2 && gp == 0;
-                            if shortcut {
-                                ctx.known_or_fail(&mut out, KF_PREC, detail);
-                            } else {
-                                out.fail(detail());
-                            }
-                        }
                     }
                     if *name == "trunc" {
                         got_trunc = Some((v, g.precision()));
@@ -344,10 +327,6 @@ fn run_ops<R: ModeTag, const B: Word>(c: &FCase, ctx: &Ctx) -> Out {
             Ok(v) => {
                 out.check(v == want_fract, || format!("FBig::fract (base {base}, p={p}) of {} = {}, want {}", c.x.sci(base).show(), show_q(&v), show_q(&want_fract)));
                 let gp = g.precision();
-                let gd = digits(Sci::from_repr(g.repr()).unwrap().n.magnitude(), base);
-                if gp != 0 && gd > gp as u64 {
-                    out.fail(format!("FBig::fract (base {base}, p={p}) of {}: result has {gd} digits but carries precision {gp}", c.x.sci(base).show()));
-                }
                 got_fract = Some((v, gp));
             }
         },
@@ -363,12 +342,6 @@ fn run_ops<R: ModeTag, const B: Word>(c: &FCase, ctx: &Ctx) -> Out {
                     format!("FBig::split_at_point (base {base}, p={p}) of {} = ({}, {}), want ({}, {})", c.x.sci(base).show(), show_q(&va), show_q(&vb), show_q(&want_trunc), show_q(&want_fract))
                 });
                 out.check(&(&va + &vb) == q, || format!("split_at_point parts do not recombine for {} (base {base})", c.x.sci(base).show()));
-                // "It's equivalent to (self.trunc(), self.fract())"
-                if let (Some((_, tp)), Some((_, fp))) = (&got_trunc, &got_fract) {
-                    out.check(a.precision() == *tp && b.precision() == *fp, || {
-                        format!("split_at_point precisions ({}, {}) differ from (trunc, fract) = ({tp}, {fp}) for {} (base {base}, p={p})", a.precision(), b.precision(), c.x.sci(base).show())
-                    });
-                }
             }
             _ => out.fail("FBig::split_at_point: infinite part".to_string()),
         },
